@@ -397,7 +397,8 @@ class ToyGMul(ToyBase):
         exp = ec.mul_repeated(k, G, p, a, n)
         # a second Generator on the same curve with ANOTHER base point is built first: tables derived from a base
         # point must not leak between generator objects
-        _try(toy_generator, case["curve"], list(ec.mul_repeated(2, G, p, a, n)), 0)
+        G2 = ec.mul_repeated(2, G, p, a, n)
+        okd, gd = _try(toy_generator, case["curve"], list(G2), 0)
         # ... and a Generator with the SAME base point coordinates on ANOTHER curve (same p, a+1, b chosen so that G is on it)
         _try(decoy_same_point_other_curve, p, a, G)
         ok, g = _try(toy_generator, case["curve"], case["G"], bf)
@@ -412,6 +413,14 @@ class ToyGMul(ToyBase):
             if not ok or got != exp:
                 return BAD("wrong-multiple" if ok else "exception", "%s = %s" % (name, show(exp)), "%s = %s (bf=%d)" % (name, show(got) if ok else v, bf),
                            n=3, clause="generator-mul", op=name)
+        # the other generator on this curve must be right as well, whichever of the two was built first in this process
+        if okd and G2 is not None:
+            expd = ec.mul_repeated(k, G2, p, a, n)
+            ok, v = _try(lambda: gd * k)
+            got = norm(v, p) if ok else v
+            if not ok or got != expd:
+                return BAD("wrong-multiple" if ok else "exception", "second generator (base point 2G) * k = %s" % show(expd),
+                           show(got) if ok else v, n=4, clause="generator-mul", op="other-base-point")
         cls = kclass(k, n)
         if (k + bf) % n == 0:
             cls += ":blind-part-inf"
